@@ -3,7 +3,7 @@
 checks that could see it, undo the patch straight afterwards. Writes seeded/<id>/detection.json."""
 import json, os, subprocess, sys, time
 VERIF = os.path.dirname(os.path.dirname(os.path.abspath(__file__)))
-EXTRA = {"C02-m1": ["C11"], "C03-m2": ["C07"], "C11-m1": ["C02"], "C02b-m1": ["C11"], "C09b-m1": ["C01"], "C11c-m1": ["C02"], "C05c-m1": ["C11"]}
+EXTRA = {"C02-m1": ["C11"], "C03-m2": ["C07"], "C11-m1": ["C02"], "C02b-m1": ["C11"], "C09b-m1": ["C01"], "C05c-m1": ["C11"]}
 only = sys.argv[1:]
 ids = sorted(os.listdir(os.path.join(VERIF, "seeded")))
 for sid in ids:
